@@ -559,6 +559,8 @@ def g5i_identifier_padding(prog):
         nx = [(a_, v) for a_, v in p.conds if isinstance(a_, tuple) and a_[0] == 'next']
         if any(v == 1 for a_, v in nx):
             continue          # 0..0 yields nothing
+        if any(isinstance(a_, tuple) and a_[0] == 'discr' and is_byte(a_[1]) and v == 1 for a_, v in p.conds):
+            continue          # nothing was pushed: a checked look at the last byte finds none
         raw = p.calls(lambda e: e['name'] in ('get_unchecked', 'get_unchecked_mut', 'index', 'index_mut', 'unwrap', 'expect', 'unwrap_unchecked') and
                       any(pathsem.mentions(a_, lambda t: isinstance(t, tuple) and t[0] == 'call' and t[1].endswith(('with_capacity', 'Vec::<T>::new'))) or is_byte_any(a_) for a_ in list(e['args']) + list(e['vals'])))
         if raw:
